@@ -23,6 +23,7 @@ pub fn run(args: &[String]) -> i32 {
             .and_then(|v| v.as_bool())
             .unwrap_or(false);
         let ir_json = req.get("ir_json").and_then(|v| v.as_bool()).unwrap_or(false);
+        let disc = req.get("disc").and_then(|v| v.as_bool()).unwrap_or(false);
         let src = match std::fs::read_to_string(&path) {
             Ok(s) => s,
             Err(e) => {
@@ -34,7 +35,52 @@ pub fn run(args: &[String]) -> i32 {
         let p2 = path.clone();
         let src_len = src.len();
         let r = guarded(Duration::from_millis(limit_ms), move || {
-            match compile(&p2, &src) {
+            let discovery = if disc { discovery_of(&p2, &src) } else { Value::Null };
+            let mut out = compile_one(&p2, &src, dumps, core_json, ir_json);
+            if disc {
+                out["discovery"] = discovery;
+            }
+            out
+        });
+        let mut out = match r {
+            Guarded::Done(v) => v,
+            Guarded::Panic { msg, at } => {
+                json!({"verdict": "panic", "msg": msg, "at": strip_repo(&at)})
+            }
+            Guarded::Timeout => json!({"verdict": "timeout"}),
+        };
+        out["id"] = id;
+        out["src_len"] = Value::from(src_len);
+        out["ms"] = Value::from(t0.elapsed().as_millis() as u64);
+        emit(&out);
+    }
+    0
+}
+
+fn discovery_of(path: &std::path::Path, src: &str) -> Value {
+    let Ok(ast) = compiler::pipeline::pipeline::parse_ast_file(path, src) else {
+        return Value::Null;
+    };
+    let root = path.parent().unwrap_or(std::path::Path::new("."));
+    match compiler::pipeline::packages::discover_packages(root, Some(path), Some(ast)) {
+        Ok(g) => {
+            let topo = compiler::pipeline::packages::topo_sort_packages(&g)
+                .map(|o| Value::from(o))
+                .unwrap_or_else(|e| {
+                    json!({"err": e.diagnostics().iter().map(|d| d.message().to_string()).collect::<Vec<_>>()})
+                });
+            json!({"order": g.discovery_order, "topo": topo})
+        }
+        Err(e) => {
+            json!({"err": e.diagnostics().iter().map(|d| d.message().to_string()).collect::<Vec<_>>()})
+        }
+    }
+}
+
+fn compile_one(p2: &std::path::Path, src: &str, dumps: bool, core_json: bool, ir_json: bool) -> Value {
+    {
+        {
+            match compile(p2, src) {
                 Ok(c) => {
                     let mut out = json!({"verdict": "ok"});
                     out["go"] = Value::from(c.go.to_pretty(&c.goenv, WIDTH));
@@ -64,20 +110,8 @@ pub fn run(args: &[String]) -> i32 {
                     json!({"verdict": verdict, "diags": diags})
                 }
             }
-        });
-        let mut out = match r {
-            Guarded::Done(v) => v,
-            Guarded::Panic { msg, at } => {
-                json!({"verdict": "panic", "msg": msg, "at": strip_repo(&at)})
-            }
-            Guarded::Timeout => json!({"verdict": "timeout"}),
-        };
-        out["id"] = id;
-        out["src_len"] = Value::from(src_len);
-        out["ms"] = Value::from(t0.elapsed().as_millis() as u64);
-        emit(&out);
+        }
     }
-    0
 }
 
 pub fn ir_export(_c: &compiler::pipeline::pipeline::Compilation) -> Value {
